@@ -16,6 +16,7 @@ import KafkaVerif.Lemmas.CommitSync
 import KafkaVerif.Model.GroupStart
 import KafkaVerif.Gen.GroupFacts
 import KafkaVerif.Lemmas.Group
+import KafkaVerif.Lemmas.GroupFront
 
 namespace KV.Commit.C03
 open KV.Commit
@@ -225,5 +226,57 @@ the delivered records is simply not a step of the model -/
 example : grun false {} [.produce, .produce, .assign 1, .deliver 0, .commit 1 2 true] = none := by decide
 
 end GroupHistory
+
+/-! ## the Reader front between the fetchers and the application (justifies the `deliver` step of the group history)
+
+`Model/GroupFront.lean`: FetchMessage samples `r.version` BEFORE it blocks; a generation change (`subscribe`) may happen
+while the call is pending.  Hypothesis: each fetcher enqueues its own records gap-free in order (C02). -/
+section Front
+open KV.GroupFront
+
+/-- regenerated: FetchMessage keeps a message iff `m.version >= version` (the sampled one) — the `accept` of the model -/
+theorem front_matches_source :
+    KV.Gen.Group.fetchVersionFilter = ">=" ∧ ∀ tag sampled, accept false tag sampled = decide (tag ≥ sampled) := by
+  refine ⟨by decide, fun tag sampled => ?_⟩
+  simp [accept]
+
+/-- For every generation (version tag) the offsets FetchMessage returned from that generation's fetcher are exactly
+`start, start+1, …` — consecutive from the assignment's start position, nothing skipped — in every reachable state,
+whatever the interleaving of calls, subscriptions (also while a call is pending), late enqueues of cancelled
+fetchers and receives. -/
+theorem front_no_gap_per_generation (s : GF) (h : FReachable false s) (t : Nat) :
+    (s.out.filter (fun e => e.1 == t)).map (·.2) = List.range' (s.start t) (s.returned t) :=
+  (finv_reachable s h).j4 t
+
+/-- A record of the CURRENT generation is never discarded: if the head of the queue carries the current version, a
+pending FetchMessage — whenever it sampled the version — returns it. -/
+theorem current_generation_never_dropped (s : GF) (h : FReachable false s) (v o : Nat) (rest : List (Nat × Nat))
+    (hs : s.sampled = some v) (hq : s.queue = (s.version, o) :: rest) :
+    ∃ s', fstep false s .recv = some s' ∧ s'.out = s.out ++ [(s.version, o)] ∧ s'.sampled = none := by
+  have hv := (finv_reachable s h).j1 v hs
+  simp only [fstep, hs, hq, accept]
+  simp [hv]
+
+/-- In particular: a FetchMessage pending on an idle queue while the group rebalances receives the FIRST record the new
+generation fetches (the one at the new assignment's start position). -/
+theorem pending_fetch_gets_first_record_of_new_generation (s : GF) (h : FReachable false s) (v st : Nat)
+    (hs : s.sampled = some v) (hq : s.queue = []) :
+    (frun false s [.subscribe st, .enqueue (s.version + 1), .recv]).map (·.out) = some (s.out ++ [(s.version + 1, st)]) := by
+  have i := finv_reachable s h
+  have hv := i.j1 v hs
+  have hz := (i.j6z (s.version + 1) (by omega)).1
+  have hle : v ≤ s.version + 1 := by omega
+  simp [frun, fstep, hs, hq, accept, upd, hz, hle]
+
+/-- With `m.version == version` instead of `>=` (seeded change C03-m5) exactly that record is discarded: the call sampled
+version 0, generation 1 subscribes at offset 5 and fetches it; the record is taken off the queue and lost. -/
+theorem strict_version_filter_counterexample :
+    (frun true {} [.call, .subscribe 5, .enqueue 1, .recv]).map (fun s => (s.out, s.queue, s.taken 1)) = some ([], [], 1) := by
+  decide
+
+example : (frun false {} [.call, .subscribe 5, .enqueue 1, .recv]).map (fun s => (s.out, s.queue)) = some ([(1, 5)], []) := by
+  decide
+
+end Front
 
 end KV.Commit.C03
